@@ -107,6 +107,8 @@ def function_level(rep: Report, tier: str) -> None:
 SHAPES = [
     "a", "ab", "a_b", "a_b_c", "_a", "a_", "_a_b", "__a__", "a__b", "a_1", "a1", "A_b", "aB", "a_B", "Ab_cd", "AB", "ab_CD", "x_y1_z", "val_", "in_", "sub_class", "class_", "fun_x",
     "my_name", "myName", "my_name_", "a_b_", "_1", "_", "__", "result_1", "param_1", "ABC_DEF", "a_bc_d", "http_url", "n_", "T_co", "t_co",
+    # Safe-DS keywords that are ordinary Python identifiers: escaping them (back-quotes) is no renaming
+    "schema", "val", "sub", "literal",
 ]  # fmt: skip
 POSITIONS = [
     "function", "method", "class", "nested_class", "parameter", "ctor_parameter", "class_attr", "inst_attr", "property", "doc_result_name",
